@@ -126,9 +126,64 @@ def ring_index_form(ctx, crate, depths, clause="ring-index"):
                sample={"identities": n_ok})
 
 
+def first_index_forms(ctx, crate, depths, clause="first-index-of-ring"):
+    """D: in each of the three regions the index to_ring adds to the position inside the ring is the
+    number of cells of all the rings before ring k (4(m+1) cells in polar ring m, 4n in equatorial
+    rings): north cap 2k(k+1); equatorial 2n(n+1) + (k-n) 4n; south cap 12n^2 - 2(h+1)(h+2) with
+    h = i + j.  Polynomial identities in (i, j) per depth and base cell; the region is selected by
+    substituting the outcome of the two region tests (a finite key)."""
+    from rules.c11_forms import ipoly
+    from poly import Poly
+    from sym import C
+    fn = "nested::Layer::to_ring"
+    b = ctx.anchor(crate, fn, clause)
+    if b is None: return
+    fields = [f["name"] for f in crate.adts["nested::Layer"]["variants"][0]["fields"]]
+    bad = []; n_ok = 0
+    I, J = Poly.var("i"), Poly.var("j")
+    for d in depths:
+        n = 1 << d
+        vals = {"depth": C('u8', d), "nside": C('u32', n), "n_hash": C('u64', 12 * n * n), "twice_depth": C('u8', 2 * d)}
+        selfv = ('agg', 'adt:nested::Layer', 0, tuple(vals.get(f, ('sym', ('self', f))) for f in fields))
+        e0 = Engine(crate, opaque={"nested::Layer::decode_hash"}); e0.run_method(fn, selfv)
+        dec = [ev for ev in e0.events.values() if ev.callee == "nested::Layer::decode_hash"]
+        if len(dec) != 1: bad.append((d, "decode")); continue
+        d0h_t, i_t, j_t = ('fld', dec[0].ret, 0), ('fld', dec[0].ret, 1), ('fld', dec[0].ret, 2)
+        names = {i_t: "i", j_t: "j"}
+        for base in (0, 3, 4, 6, 7, 8, 11):
+            row = base // 4
+            e1 = Engine(crate, opaque={"nested::Layer::decode_hash"}); e1.subst = {d0h_t: C('u8', base)}
+            e1.run_method(fn, selfv)
+            tests = [t for t, loc in e1.branches if loc[0] == fn and t[0] == 'op' and t[1] in ('lt', 'ge', 'gt', 'le') and (t[3][0] == 'c' or t[4][0] == 'c')
+                     and ipoly(t[3] if t[4][0] == 'c' else t[4], names) is not None and not (ipoly(t[3] if t[4][0] == 'c' else t[4], names)).is_const()]
+            if len(tests) < 2: bad.append((d, base, "region tests: %d" % len(tests))); continue
+            t_npc, t_spc = tests[0], tests[1]
+            k = Poly.const(n * (2 + row) - 2) - I - J
+            regions = []
+            if row == 0: regions.append(("npc", {t_npc: C('bool', 1)}, Poly.const(2) * k * (k + Poly.const(1))))
+            regions.append(("eqr", {t_npc: C('bool', 0), t_spc: C('bool', 0)}, Poly.const(2 * n * (n + 1)) + (k - Poly.const(n)) * Poly.const(4 * n)))
+            if row == 2:
+                h = I + J
+                regions.append(("spc", {t_npc: C('bool', 0), t_spc: C('bool', 1)}, Poly.const(12 * n * n) - Poly.const(2) * (h + Poly.const(1)) * (h + Poly.const(2))))
+            for rname, sub, want in regions:
+                if d == 0 and rname == "eqr" and row != 1: continue          # depth 0: polar base cells are a single polar ring
+                e = Engine(crate, opaque={"nested::Layer::decode_hash"}); e.subst = dict(sub); e.subst[d0h_t] = C("u8", base)
+                r = e.run_method(fn, selfv)
+                t = r.ret if r.returns else None
+                polys = []
+                if t is not None and t[0] == 'op' and t[1] == 'add':
+                    polys = [p for p in (ipoly(t[3], names), ipoly(t[4], names)) if p is not None]
+                if any(p == want for p in polys): n_ok += 1
+                else: bad.append((d, base, rname, [repr(p) for p in polys] or (show(t)[:80] if t else None)))
+    ctx.functions.add(fn)
+    ctx.report(clause, fn + ":cells-before-ring", not bad, "%d identities (depths %s x 7 base cells x reachable regions): the first index of a ring is the number of cells of the rings before it" % (n_ok, depths if len(depths) < 8 else "0..=29") if not bad else "differs: %s" % bad[:3],
+               at=b.span, sample={"identities": n_ok})
+
+
 def run(ctx):
     crate = ctx.crate("rel")
     no_32bit_wrap(ctx, crate)
+    first_index_forms(ctx, crate, list(range(30)) if ctx.tier == "thorough" else [0, 1, 2, 13, 29])
     ring_index_form(ctx, crate, list(range(30)) if ctx.tier == "thorough" else [0, 1, 2, 13, 29])
     try:
         from rules import c11_forms
